@@ -423,6 +423,22 @@ func c01Set(x *c01ctx, rng *rand.Rand, D []int) {
 		x.try("D-shift", fmt.Sprintf("%s e_response band %s", desc, band), d)
 	}
 
+	// disclosed values moved by multiples of the group order (same power of R_i, another integer than the issuer signed):
+	// in memory, where the integer may be negative, and with the magnitude alone
+	for _, i := range D {
+		for _, k := range []int64{-1, -2, 1} {
+			nv := add(cred.Ledger[i], mul(bi(k), ord))
+			d := cloneD(honest)
+			d.ADisclosed[i] = nv
+			x.try("D-shift-disclosed", fmt.Sprintf("%s disclosed[%d] %+d*ord", desc, i, k), d)
+			if nv.Sign() < 0 {
+				d = cloneD(honest)
+				d.ADisclosed[i] = new(big.Int).Abs(nv)
+				x.try("D-shift-disclosed", fmt.Sprintf("%s disclosed[%d] |%+d*ord|", desc, i, k), d)
+			}
+		}
+	}
+
 	// E. index games: entries at indices the issuer never signed
 	for idx := n; idx < len(pk.R); idx++ {
 		for _, val := range []int64{0, 7} {
